@@ -178,7 +178,8 @@ fn main() {
                             "nonfinite"
                         } else if hsluv_white {
                             "hsluv_no_guard_at_white"
-                        } else if (ok_family(src) || ok_family(dst)) && d <= 2e-8 * dst.scale() + judge::sensitivity(src, dst, &x, judge::K * judge::U64, 5e-4) {
+                        } else if (ok_family(src) || ok_family(dst)) && d <= 2e-8 * dst.scale() + judge::sensitivity(src, dst, &x, judge::K * judge::U64, if matches!(dst, Space::Okhsl | Space::Okhsv | Space::Okhwb) { 3e-3 } else { 5e-4 }) {
+                            // (Okhsl / Okhsv / Okhwb divide the residue by a maximum chroma that vanishes towards white and black)
                             "oklab_xyz_matrix_white_mismatch"
                         } else if d > 1e3 * tol {
                             "gross"
